@@ -11,7 +11,9 @@
   node saw: the option values its body was called with, the callback handlers active for it.
 -/
 import EinoV.Model.C16
+import EinoV.Model.C16Keys
 import EinoV.Proofs.C16
+import EinoV.Proofs.C16Keys
 import EinoV.Gen.FactsC16
 import EinoV.Expected.C16
 
@@ -25,10 +27,22 @@ def gen : Facts :=
     passSubPathIsError := FactsC16.passSubPathIsError, nestedCopies := FactsC16.nestedCopies,
     designateCopies := FactsC16.designateCopies }
 
+/-- The regenerated facts about the key wrappers (`WithInputKey` / `WithOutputKey`). -/
+def genK : KeyFacts :=
+  { inKeyFwdInvoke := FactsC16.inKeyFwdInvoke, inKeyFwdTransform := FactsC16.inKeyFwdTransform,
+    outKeyFwdInvoke := FactsC16.outKeyFwdInvoke, outKeyFwdTransform := FactsC16.outKeyFwdTransform }
+
 /-! ## property theorems (instantiated with the facts regenerated from /repo) -/
 
 /-- Source fact tie: the regenerated facts are the ones the oracle runs with. -/
 theorem facts_match : gen = Expected.C16.facts := by decide
+
+/-- Source fact tie: both closures (invoke path, transform path) of both key wrappers pass the
+    option list on to the closure they wrap; these are the values the oracle runs with. -/
+theorem key_facts_match : genK = Expected.C16.keyFacts := by decide
+
+theorem genK_all : genK.allForward := by
+  unfold KeyFacts.allForward; decide
 
 /-- Source fact tie: every code shape the model has built in was found in the source
     (`optionType == nil` decides "transmit the whole Option", guards of the undesignated block,
@@ -246,6 +260,68 @@ theorem designate_paths_exact (grow : Nat → Nat → Nat) (ops : List BuildOp) 
   have h : gen.designateCopies = true := by decide
   rw [h]; exact builtPaths_copies grow ops
 
+/-! ## paradigms and key wrappers (Model/C16Keys.lean)
+
+  `extractOption` decides what a node's *task* holds; `runW` adds the way from the task to the
+  node body: the paradigm of the call (`Invoke` = every node's `i` closure; `Stream`, `Collect`,
+  `Transform` = every node's `t` closure) and the wrappers of `WithInputKey` / `WithOutputKey`
+  around the node.  With the regenerated facts that way changes nothing. -/
+
+/-- **keys_and_paradigm_irrelevant.** For every tree whose nodes (components, lambdas,
+    passthroughs, nested graphs at any depth) carry any input / output keys, every paradigm and
+    every list of Options, the run is the run of the tree without keys (`run`, the subject of
+    all theorems above): every node receives the same option values and has the same handlers,
+    and the call is rejected for the same reason at the same graph. -/
+theorem keys_and_paradigm_irrelevant (par : Paradigm) (g : WNodes) (opts : List Opt) :
+    runW gen genK par g opts = run gen g.erase opts :=
+  runW_eq genK_all par g opts
+
+/-- Two calls whose trees differ only in keys, in any two paradigms, have the same outcome. -/
+theorem same_outcome_in_every_paradigm (par par' : Paradigm) (g g' : WNodes)
+    (h : g.erase = g'.erase) (opts : List Opt) :
+    runW gen genK par g opts = runW gen genK par' g' opts := by
+  rw [keys_and_paradigm_irrelevant, keys_and_paradigm_irrelevant, h]
+
+/-- `option_reaches_iff` for a call in any paradigm on a tree with keys: a component node at
+    path `p` – with or without input / output key, inside any number of keyed sub-graphs –
+    receives exactly the values of the Options of its type that are undesignated or designated
+    to a prefix of `p`. -/
+theorem keyed_option_reaches_iff (par : Paradigm) (g : WNodes) (hwf : g.erase.wf = true)
+    (opts : List Opt) (out : List Entry) (hrun : runW gen genK par g opts = .ok out)
+    (p : Path) (k : Key) (ty : Nat) (hnode : nodeAt g.erase p = some (.comp k ty)) :
+    (∃ e ∈ out, e.path = p) ∧
+    ∀ e ∈ out, e.path = p → ∀ v, v ∈ e.vals ↔
+      ∃ o ∈ opts, v ∈ o.vals ∧ ty = o.ty ∧
+        (o.paths = [] ∨ ∃ q ∈ o.paths, q ≠ [] ∧ q <+: p) := by
+  rw [keys_and_paradigm_irrelevant] at hrun
+  exact option_reaches_iff g.erase hwf opts out hrun p k ty hnode
+
+/-- `designation_errors_iff` for a call in any paradigm on a tree with keys: a bad designated
+    path (unknown node, below a non-graph node, wrong type, empty) is an error also when it
+    leads through or to keyed nodes, in every paradigm. -/
+theorem keyed_designation_errors_iff (par : Paradigm) (g : WNodes) (hwf : g.erase.wf = true)
+    (opts : List Opt) :
+    (∃ e, runW gen genK par g opts = .error e) ↔
+      ∃ o ∈ opts, ∃ p ∈ o.paths, (pathErr gen g.erase o p).isSome = true := by
+  rw [keys_and_paradigm_irrelevant]
+  exact designation_errors_iff g.erase hwf opts
+
+/-- `callbacks_reach_iff` for a call in any paradigm on a tree with keys. -/
+theorem keyed_callbacks_reach_iff (par : Paradigm) (g : WNodes) (hwf : g.erase.wf = true)
+    (opts : List Opt) (out : List Entry) (hrun : runW gen genK par g opts = .ok out)
+    (e : Entry) (he : e ∈ out) (h : Nat) :
+    h ∈ e.handlers ↔
+      ∃ o ∈ opts, h ∈ o.handlers ∧ (o.paths = [] ∨ ∃ q ∈ o.paths, q ≠ [] ∧ q <+: e.path) := by
+  rw [keys_and_paradigm_irrelevant] at hrun
+  exact callbacks_reach_iff g.erase hwf opts out hrun e he h
+
+/-- `no_leak` for sequences of calls in any paradigms on trees with keys. -/
+theorem keyed_no_leak (store : List Opt) (cs : List CallW) :
+    runCallsW gen genK store cs
+      = (cs.map (fun c => run gen c.g.erase (pick store c.ixs)), store) := by
+  rw [runCallsW_eq genK_all, no_leak, List.map_map]
+  rfl
+
 /-! ## non-vacuity -/
 
 example : specPaths [.base, .designate 0 [["a"]], .designate 1 [["b"]], .designate 2 [["c"]],
@@ -345,6 +421,47 @@ theorem options_leak_into_interface_typed_nodes_when_test_relaxed :
     run F exIface [{ ty := 5, vals := [1], handlers := [], paths := [["a"]] }]
       = .ok [⟨[], true, [], []⟩, ⟨["a"], false, [1], []⟩, ⟨["m"], false, [], []⟩,
              ⟨["sub"], true, [], []⟩, ⟨["sub", "i"], false, [], []⟩, ⟨["sub", "t"], false, [], []⟩] := by
+  decide
+
+/-- a ⟶ k (input key "in") ⟶ sub (input key "in")[ a ⟶ in[ a ] ] ⟶ o (output key "out") -/
+def exKeyed : WNodes :=
+  .cons (.comp "a" 1 Wrap.plain) <| .cons (.comp "k" 1 ⟨some "in", none⟩) <|
+  .cons (.graph "sub" (.cons (.comp "a" 1 Wrap.plain) <|
+      .cons (.graph "in" (.cons (.comp "a" 1 Wrap.plain) .nil) Wrap.plain) .nil) ⟨some "in", none⟩) <|
+  .cons (.comp "o" 1 ⟨none, some "out"⟩) .nil
+
+def exKeyedOpts : List Opt :=
+  [ { ty := 1, vals := [10], handlers := [], paths := [] },
+    { ty := 1, vals := [20], handlers := [], paths := [["k"], ["sub", "in", "a"]] },
+    { ty := 0, vals := [], handlers := [7], paths := [["sub", "in"]] } ]
+
+example : exKeyed.erase.wf = true := by decide
+example : ∀ par ∈ [Paradigm.invoke, .stream, .collect, .transform],
+    runW Expected.C16.facts Expected.C16.keyFacts par exKeyed exKeyedOpts = .ok
+      [ ⟨[], true, [], []⟩, ⟨["a"], false, [10], []⟩, ⟨["k"], false, [10, 20], []⟩,
+        ⟨["sub"], true, [], []⟩, ⟨["sub", "a"], false, [10], []⟩, ⟨["sub", "in"], true, [], [7]⟩,
+        ⟨["sub", "in", "a"], false, [10, 20], [7]⟩, ⟨["o"], false, [10], []⟩ ] := by decide
+example : runW Expected.C16.facts Expected.C16.keyFacts .stream exKeyed
+      [{ ty := 1, vals := [1], handlers := [], paths := [["sub", "zz"]] }]
+    = .error (["sub"], .unknownNode) := by decide
+
+/-- If the transform closure of the input-key wrapper did not pass the option list on (the
+    invoke closure does), then on the stream path – `Stream`, `Collect`, `Transform`; `Invoke`
+    is as before – an input-keyed lambda is called without its undesignated and designated
+    options, no option, no designated callback reaches the nodes of an input-keyed sub-graph,
+    and an unknown node designated below it is no longer an error:
+    `keys_and_paradigm_irrelevant` is false for that value of the fact. -/
+theorem input_key_drops_options_on_stream_path_when_not_forwarded :
+    let K := { Expected.C16.keyFacts with inKeyFwdTransform := false }
+    (∀ par ∈ [Paradigm.stream, .collect, .transform],
+      runW Expected.C16.facts K par exKeyed exKeyedOpts = .ok
+        [ ⟨[], true, [], []⟩, ⟨["a"], false, [10], []⟩, ⟨["k"], false, [], []⟩,
+          ⟨["sub"], true, [], []⟩, ⟨["sub", "a"], false, [], []⟩, ⟨["sub", "in"], true, [], []⟩,
+          ⟨["sub", "in", "a"], false, [], []⟩, ⟨["o"], false, [10], []⟩ ] ∧
+      (runW Expected.C16.facts K par exKeyed
+        [{ ty := 1, vals := [1], handlers := [], paths := [["sub", "zz"]] }]).isOk = true) ∧
+    runW Expected.C16.facts K .invoke exKeyed exKeyedOpts
+      = run Expected.C16.facts exKeyed.erase exKeyedOpts := by
   decide
 
 /-- Stripping two keys instead of one sends the option to the wrong level. -/
